@@ -30,7 +30,9 @@ const WORDS: &[&str] = &["flour", "salt", "olive", "oil", "Crème", "ñame", "pa
 const UNITS: &[&str] = &["g", "kg", "ml", "l", "cup", "cups", "tsp", "tbsp", "min", "minutes", "h", "°C", "C", "F", "pinch", "clove", "oz", "lb", "s"];
 const NUMS: &[&str] = &["1", "2", "200", "0.5", "1.5", ".5", "1/2", "1 1/2", "3 / 4", "2-3", "1.5 - 2", "01", "1/0", "0", "10", "4294967296", "1 / 2", "1e3", "1.", "1.2.3", "1/0-2", "1-1/0", "4-2"];
 const SPACES: &[&str] = &["", "", " ", " ", "  ", "\t", "\u{00A0}"];
-const COMMENTS: &[&str] = &["[- c -]", "[-é-]", "[--]", "[- x", "-- end", "--é"];
+const COMMENTS: &[&str] = &["[- c -]", "[-é-]", "[--]", "[- x", "-- end", "--é", "[-- n --]", "[---]", "[- a - b -]", "[- x -- y -]", "[---- t ----]"];
+/// block comments that are closed (safe to put in the middle of a line: what follows is still content)
+const CLOSED_COMMENTS: &[&str] = &["[- c -]", "[-é-]", "[--]", "[-- n --]", "[---]", "[- a - b -]", "[- 1962 -]"];
 
 pub fn word(rng: &mut Rng) -> String { rng.pick_str(WORDS).to_string() }
 
@@ -113,9 +115,22 @@ pub fn step(rng: &mut Rng) -> String {
 
 pub fn block(rng: &mut Rng) -> String {
     match rng.below(12) {
-        0 => format!(">> {}: {}", rng.pick_str(&["source", "servings", "time", "[mode]", "[define]", "[duplicate]", "tags", "a b", "", "prep time", "author"]),
-                     rng.pick_str(&["x", "2", "1h 30m", "text", "steps", "components", "all", "ref", "new", "a, b", "", "90", "Ann <http://a.b>"])),
-        1 => format!("={} {} {}", rng.pick_str(&["", "=", "=="]), word(rng), rng.pick_str(&["", "=", "==", "= x"])),
+        0 => {
+            let key = rng.pick_str(&["source", "servings", "time", "[mode]", "[define]", "[duplicate]", "tags", "a b", "", "prep time", "author"]);
+            let val = rng.pick_str(&["x", "2", "1h 30m", "text", "steps", "components", "all", "ref", "new", "a, b", "", "90", "Ann <http://a.b>"]);
+            // comments inside the key, inside the value (with more value text after them) and after it
+            match rng.below(8) {
+                0 => format!(">> {key}: {} {} {}", word(rng), rng.pick_str(CLOSED_COMMENTS), val),
+                1 => format!(">> {key} {} x: {val}", rng.pick_str(CLOSED_COMMENTS)),
+                2 => format!(">> {key}: {val} {}", rng.pick_str(COMMENTS)),
+                3 => format!(">> {key}:{}{val}{}{}", rng.pick_str(CLOSED_COMMENTS), rng.pick_str(CLOSED_COMMENTS), word(rng)),
+                _ => format!(">> {key}: {val}"),
+            }
+        }
+        1 => match rng.below(5) {
+            0 => format!("={} {} {} {} {}", rng.pick_str(&["", "=", "=="]), word(rng), rng.pick_str(CLOSED_COMMENTS), word(rng), rng.pick_str(&["", "=", "=="])),
+            _ => format!("={} {} {}", rng.pick_str(&["", "=", "=="]), word(rng), rng.pick_str(&["", "=", "==", "= x"])),
+        },
         2 => format!("> {}", step(rng)),
         3 => format!("> {}\n> {}\n{}", word(rng), step(rng), word(rng)),
         _ => step(rng),
